@@ -12,7 +12,7 @@ def oid : Option (Nat × Nat) → List Nat
 
 /-- every pooled buffer the connection holds, owner by owner -/
 def owned (s : S) : List Nat :=
-  s.qrest ++ s.inflight.toList ++ oid s.cache ++ oid s.message ++ s.held
+  s.qrest ++ s.inflight.toList ++ oid s.cache ++ oid s.message ++ s.held ++ s.jobs
 
 def WInv (s : S) : Prop := RInv s.heap none (owned s)
 
@@ -29,6 +29,23 @@ theorem rinv_perm (h : Heap) (b b' : List Nat) (hi : RInv h none b) (hp : b.Perm
 macro "perm_auto" : tactic =>
   `(tactic| (simp only [List.perm_iff_count, List.count_append, List.count_cons, List.count_nil]; intro x; omega))
 
+theorem nodup_of_count_le (b b' : List Nat) (hb : b.Nodup) (hc : ∀ x, b'.count x ≤ b.count x) : b'.Nodup := by
+  rw [List.nodup_iff_count] at *
+  intro a; exact Nat.le_trans (hc a) (hb a)
+
+theorem mem_of_count_le (b b' : List Nat) (hc : ∀ x, b'.count x ≤ b.count x) : ∀ x ∈ b', x ∈ b := by
+  intro x hx
+  have h1 : 0 < b'.count x := List.count_pos_iff.mpr hx
+  exact List.count_pos_iff.mp (Nat.lt_of_lt_of_le h1 (hc x))
+
+/-- the owner list may be reordered and entries dropped: stated on multiplicities (arithmetic instead of list reasoning) -/
+theorem rinv_count (h : Heap) (b b' : List Nat) (hi : RInv h none b) (hc : ∀ x, b'.count x ≤ b.count x) : RInv h none b' :=
+  rinv_sub h b b' hi (nodup_of_count_le b b' hi.nd hc) (mem_of_count_le b b' hc)
+
+macro "count_auto" : tactic =>
+  `(tactic| (intro x; simp only [List.count_append, List.count_cons, List.count_nil, Option.toList_some, Option.toList_none];
+             omega))
+
 theorem rinv_free_sub (h : Heap) (b b' : List Nat) (id : Nat) (hi : RInv h none b) (hid : id ∈ b) (nd : b'.Nodup)
     (sub : ∀ x ∈ b', x ∈ b ∧ x ≠ id) : RInv (h.free id) none b' := by
   have hl : h.live id = true := hi.bl id hid
@@ -37,6 +54,21 @@ theorem rinv_free_sub (h : Heap) (b b' : List Nat) (id : Nat) (hi : RInv h none 
   · intro i hi'
     rw [Heap.free_live_at _ _ _ hl]
     simp [(sub i hi').2, hi.bl i (sub i hi').1]
+
+theorem rinv_free_count (h : Heap) (b b' : List Nat) (id : Nat) (hi : RInv h none b) (hid : id ∈ b)
+    (hc : ∀ x, b'.count x + [id].count x ≤ b.count x) : RInv (h.free id) none b' := by
+  have hnd := hi.nd
+  rw [List.nodup_iff_count] at hnd
+  refine rinv_free_sub h b b' id hi hid (nodup_of_count_le b b' hi.nd (fun x => by have := hc x; omega)) ?_
+  intro x hx
+  have h1 : 0 < b'.count x := List.count_pos_iff.mpr hx
+  refine ⟨List.count_pos_iff.mp (by have := hc x; omega), ?_⟩
+  intro he
+  subst he
+  have h2 := hc x
+  have h3 := hnd x
+  simp at h2
+  omega
 
 theorem rinv_malloc_sub (h : Heap) (b b' : List Nat) (n : Nat) (hi : RInv h none b) (nd : b'.Nodup)
     (sub : ∀ x ∈ b', x ∈ b ∨ x = h.next) : RInv (h.malloc n).1 none b' := by
@@ -92,15 +124,14 @@ theorem writeFrame_inv (g : Cfg) (s : S) (size : Nat) (ok : Bool) (hi : WInv s) 
   · split
     · exact rinv_free_head _ none _ _ hm
     · split
-      · refine rinv_sub _ _ _ hm ?_ ?_
-        · have := hm.nd; simp only [owned] at *; grind
-        · simp only [owned]; grind
-      · refine rinv_sub _ _ _ hm ?_ ?_
-        · have := hm.nd; simp only [owned] at *; grind
-        · simp only [owned]; grind
+      · exact rinv_count _ _ _ hm (by simp only [owned]; count_auto)
+      · exact rinv_count _ _ _ hm (by simp only [owned]; count_auto)
   · exact rinv_free_head _ none _ _ (rinv_touch_mem _ _ s.heap.next _ hm (by simp))
 
 theorem writeFrame_held (g : Cfg) (s : S) (size : Nat) (ok : Bool) : (writeFrame g s size ok).1.held = s.held := by
+  unfold writeFrame; dsimp only; (repeat' split) <;> rfl
+
+theorem writeFrame_jobs (g : Cfg) (s : S) (size : Nat) (ok : Bool) : (writeFrame g s size ok).1.jobs = s.jobs := by
   unfold writeFrame; dsimp only; (repeat' split) <;> rfl
 
 theorem sendFrames_inv (g : Cfg) (fr : List (Nat × Bool)) (s : S) (hi : WInv s) : WInv (sendFrames g s fr) := by
@@ -122,6 +153,22 @@ theorem sendFrames_held (g : Cfg) (fr : List (Nat × Bool)) (s : S) : (sendFrame
     split
     · rw [ih, writeFrame_held]
     · exact writeFrame_held ..
+
+theorem sendFrames_jobs (g : Cfg) (fr : List (Nat × Bool)) (s : S) : (sendFrames g s fr).jobs = s.jobs := by
+  induction fr generalizing s with
+  | nil => rfl
+  | cons f rest ih =>
+    unfold sendFrames
+    dsimp only
+    split
+    · rw [ih, writeFrame_jobs]
+    · exact writeFrame_jobs ..
+
+theorem send_jobs (g : Cfg) (s : S) (ctl) (fr) : (send g s ctl fr).jobs = s.jobs := by
+  unfold send; (repeat' split)
+  · rfl
+  · rfl
+  · exact sendFrames_jobs g fr s
 
 theorem send_inv (g : Cfg) (s : S) (ctl) (fr) (hi : WInv s) : WInv (send g s ctl fr) := by
   unfold send; (repeat' split)
@@ -171,14 +218,10 @@ theorem dAdvance_inv (s : S) (hi : WInv s) : WInv (dAdvance s) := by
     · split
       · next hq =>
         unfold WInv at *
-        refine rinv_sub _ _ _ hi ?_ ?_
-        · have := hi.nd; simp only [owned, hq] at *; grind
-        · simp only [owned, hq]; grind
+        exact rinv_count _ _ _ hi (by simp only [owned, hq]; count_auto)
       · next id rest hq =>
         unfold WInv at *
-        refine rinv_sub _ _ _ hi ?_ ?_
-        · have := hi.nd; simp only [owned, hq] at *; grind
-        · simp only [owned, hq]; grind
+        exact rinv_count _ _ _ hi (by simp only [owned, hq]; count_auto)
   · exact hi
 
 theorem close_inv (s : S) (hi : WInv s) : WInv (close s) := by
@@ -186,10 +229,8 @@ theorem close_inv (s : S) (hi : WInv s) : WInv (close s) := by
   split
   · exact hi
   · unfold WInv at *
-    have h0 : RInv s.heap none (s.qrest ++ (oid s.cache ++ (oid s.message ++ (s.inflight.toList ++ s.held)))) := by
-      refine rinv_sub _ _ _ hi ?_ ?_
-      · have := hi.nd; simp only [owned] at *; grind
-      · simp only [owned]; grind
+    have h0 : RInv s.heap none (s.qrest ++ (oid s.cache ++ (oid s.message ++ (s.inflight.toList ++ s.held ++ s.jobs)))) := by
+      exact rinv_count _ _ _ hi (by simp only [owned]; count_auto)
     have h1 := rinv_freeOpt _ _ _ (rinv_freeOpt _ _ _ (rinv_freeIds _ _ _ h0))
     simpa [owned, oid] using h1
 
@@ -204,9 +245,7 @@ theorem rxAppend_inv (s : S) (n : Nat) (hi : WInv s) : WInv (rxAppend s n) := by
       unfold WInv at *
       have hm := rinv_malloc_cons s.heap (owned s) n none hi
       simp only [Heap.malloc_id]
-      refine rinv_sub _ _ _ hm ?_ ?_
-      · have := hm.nd; simp only [owned, hc, oid] at *; grind
-      · simp only [owned, hc, oid]; grind
+      exact rinv_count _ _ _ hm (by simp only [owned, hc, oid]; count_auto)
     · next id len hc =>
       unfold WInv at *
       have : owned { s with cache := some (id, len + n), heap := s.heap.touch id (some (.append id)) } = owned s := by
@@ -249,9 +288,7 @@ theorem rxAssemble_inv (h : Heap) (msg : Option (Nat × Nat)) (f : FrameInfo) (X
   · split
     · have hm := rinv_malloc_cons h _ f.bl none hi
       simp only [Heap.malloc_id]
-      refine rinv_sub _ _ _ hm ?_ ?_
-      · have := hm.nd; grind
-      · grind
+      exact rinv_count _ _ _ hm (by count_auto)
     · simpa using hi
   · have hg := rxGrow_inv h msg f.bl X hi
     generalize rxGrow h msg f.bl = p at *
@@ -290,11 +327,11 @@ theorem rxFrame_inv (g : Cfg) (s : S) (f : FrameInfo) (hi : WInv s) : WInv (rxFr
         have ha := rxCopy_inv g s.heap cid f (owned s) hi (by simp [owned, hoc])
         generalize rxCopy g s.heap cid f = a at *
         simp only [owned, hoc] at ha
-        have ha' : RInv a.1 none (oid s.message ++ (cid :: (s.qrest ++ s.inflight.toList ++ s.held ++ a.2))) :=
+        have ha' : RInv a.1 none (oid s.message ++ (cid :: (s.qrest ++ s.inflight.toList ++ s.held ++ s.jobs ++ a.2))) :=
           rinv_perm _ _ _ ha (by perm_auto)
         have hb := rxAssemble_inv a.1 s.message f _ ha'
         generalize rxAssemble a.1 s.message f = b at *
-        have hb' : RInv b.1 none (cid :: (oid b.2.1 ++ b.2.2 ++ (s.qrest ++ s.inflight.toList ++ s.held ++ a.2))) :=
+        have hb' : RInv b.1 none (cid :: (oid b.2.1 ++ b.2.2 ++ (s.qrest ++ s.inflight.toList ++ s.held ++ s.jobs ++ a.2))) :=
           rinv_perm _ _ _ hb (by perm_auto)
         have hcc := rxRelease_inv b.1 cid clen f.total _ hb'
         generalize rxRelease b.1 cid clen f.total = c at *
@@ -321,12 +358,38 @@ theorem rxHandle_inv (g : Cfg) (s : S) (p : Bool) (pf : Nat × Bool) (hi : WInv 
     have hmem : id ∈ owned s1 := by simp [owned, h2]
     have ht := rinv_touch_mem _ _ id none h1 hmem
     split
-    · refine rinv_free_sub _ (owned s1) _ id ht hmem ?_ ?_
-      · have := h1.nd; simp only [owned, h2] at *; grind
-      · have := h1.nd; simp only [owned, h2] at *; grind
-    · refine rinv_sub _ _ _ ht ?_ ?_
-      · have := h1.nd; simp only [owned, h2] at *; grind
-      · simp only [owned, h2]; grind
+    · exact rinv_free_count _ (owned s1) _ id ht hmem (by simp only [owned, h2]; count_auto)
+    · exact rinv_count _ _ _ ht (by simp only [owned, h2]; count_auto)
+
+theorem rxQueue_inv (s : S) (hi : WInv s) : WInv (rxQueue s) := by
+  unfold rxQueue
+  split
+  · exact hi
+  · next id rest hh =>
+    unfold WInv at *
+    exact rinv_count _ _ _ hi (by simp only [owned, hh]; count_auto)
+
+theorem jobRun_inv (g : Cfg) (s : S) (p : Bool) (pf : Nat × Bool) (hi : WInv s) : WInv (jobRun g s p pf) := by
+  unfold jobRun
+  split
+  · exact hi
+  · next id rest hh =>
+    dsimp only
+    have h1 : WInv (if p then send g s true [pf] else s) := by
+      split
+      · exact send_inv g s _ _ hi
+      · exact hi
+    have h2 : (if p then send g s true [pf] else s).jobs = id :: rest := by
+      split
+      · rw [send_jobs, hh]
+      · exact hh
+    generalize (if p then send g s true [pf] else s) = s1 at *
+    unfold WInv at *
+    have hmem : id ∈ owned s1 := by simp [owned, h2]
+    have ht := rinv_touch_mem _ _ id none h1 hmem
+    split
+    · exact rinv_free_count _ (owned s1) _ id ht hmem (by simp only [owned, h2]; count_auto)
+    · exact rinv_count _ _ _ ht (by simp only [owned, h2]; count_auto)
 
 theorem step_inv (g : Cfg) (s : S) (a : Act) (hi : WInv s) : WInv (step g s a) := by
   cases a with
@@ -339,6 +402,8 @@ theorem step_inv (g : Cfg) (s : S) (a : Act) (hi : WInv s) : WInv (step g s a) :
   | rxAppend n => exact rxAppend_inv s n hi
   | rxFrame f => exact rxFrame_inv g s f hi
   | rxHandle p pf => exact rxHandle_inv g s p pf hi
+  | rxQueue => exact rxQueue_inv s hi
+  | jobRun p pf => exact jobRun_inv g s p pf hi
 
 theorem run_inv (g : Cfg) (acts : List Act) (s : S) (hi : WInv s) : WInv (run g s acts) := by
   induction acts generalizing s with
